@@ -241,8 +241,28 @@ theorem stepEvent_state_nopatch {T : Int} {s : WState} {it : Iter} (h : it.patch
   simp [stepEvent, feedback, h]
 
 theorem stepEvent_state_patch {T : Int} {s : WState} {it : Iter} {p : Ver} (h : it.patched = some p)
-    (hT : T ≠ 0) : (stepEvent T s it).1 = { expected := some p, deadline := some (it.tret + T) } := by
-  simp [stepEvent, feedback, h, hT]
+    (hT : T ≠ 0) (hne : some p ≠ it.ver) :
+    (stepEvent T s it).1 = { expected := some p, deadline := some (it.tret + T) } := by
+  simp [stepEvent, feedback, h, hT, hne]
+
+/-- A PATCH that changed nothing (the returned version is the one just processed) arms nothing. -/
+theorem stepEvent_state_noop {T : Int} {s : WState} {it : Iter} {p : Ver} (h : it.patched = some p)
+    (heq : it.ver = some p) : (stepEvent T s it).1 = arrive s it.ver := by
+  simp [stepEvent, feedback, h, heq]
+
+/-- After an iteration the worker's locals are either what the arrival left, or freshly armed. -/
+theorem stepEvent_state_cases (T : Int) (s : WState) (it : Iter) :
+    (stepEvent T s it).1 = arrive s it.ver ∨
+    ∃ p, it.patched = some p ∧ T ≠ 0 ∧ some p ≠ it.ver ∧
+      (stepEvent T s it).1 = { expected := some p, deadline := some (it.tret + T) } := by
+  cases hp : it.patched with
+  | none => exact Or.inl (by simp [stepEvent, feedback, hp])
+  | some p =>
+    by_cases hT : T = 0
+    · exact Or.inl (by simp [stepEvent, feedback, hp, hT])
+    · by_cases hne : some p = it.ver
+      · exact Or.inl (stepEvent_state_noop hp hne.symm)
+      · exact Or.inr ⟨p, rfl, hT, hne, by simp [stepEvent, feedback, hp, hT, hne]⟩
 
 theorem stepEvent_state_T0 {s : WState} {it : Iter} :
     (stepEvent 0 s it).1 = arrive s it.ver := by
@@ -286,15 +306,17 @@ def Cover (T : Int) (c : Cfg) (p : Ver) (tp : Int) (seen : Prop) : Prop :=
 
 theorem cover_after_patch {T idle : Int} {c : Cfg} {k : Iter} {p : Ver}
     (hok : okStep idle c (.event k) = true) (hk : k.patched = some p) :
-    Cover T (next T c (.event k)) p k.tp False := by
+    Cover T (next T c (.event k)) p k.tp (k.ver = some p) := by
   have ht := okStep_event hok
   by_cases hT : T = 0
   · right; left; subst hT; simp only [next]; omega
-  · right; right
-    have hs : (next T c (.event k)).s = { expected := some p, deadline := some (k.tret + T) } :=
-      stepEvent_state_patch hk hT
-    rw [hs]
-    exact ⟨rfl, k.tret + T, rfl, by omega⟩
+  · by_cases hne : some p = k.ver
+    · exact Or.inl hne.symm
+    · right; right
+      have hs : (next T c (.event k)).s = { expected := some p, deadline := some (k.tret + T) } :=
+        stepEvent_state_patch hk hT hne
+      rw [hs]
+      exact ⟨rfl, k.tret + T, rfl, by omega⟩
 
 theorem cover_next {T idle : Int} {c : Cfg} {st : Step} {p : Ver} {tp : Int} {seen : Prop}
     (hc : Cover T c p tp seen) (hok : okStep idle c st = true) (hnp : st.patched = none) :
@@ -388,21 +410,14 @@ theorem deadline_bound_next {T idle : Int} {c : Cfg} {st : Step} (hok : okStep i
   | event it =>
     have ht := okStep_event hok
     simp only [next] at hd ⊢
-    unfold stepEvent feedback at hd
-    simp only at hd
-    cases hp : it.patched with
-    | some p =>
-      by_cases hT : T = 0
-      · simp only [hp, hT, ne_eq, not_true_eq_false, if_false] at hd
-        rcases arrive_cases c.s it.ver with ⟨h, _, _⟩ | ⟨h, _⟩
-        · rw [h] at hd; cases hd
-        · rw [h] at hd; have := hI d hd; omega
-      · simp only [hp, ne_eq, hT, not_false_eq_true, if_true, Option.some.injEq] at hd; omega
-    | none =>
-      simp only [hp] at hd
+    rcases stepEvent_state_cases T c.s it with h0 | ⟨p, _, _, _, h0⟩
+    · rw [h0] at hd
       rcases arrive_cases c.s it.ver with ⟨h, _, _⟩ | ⟨h, _⟩
       · rw [h] at hd; cases hd
       · rw [h] at hd; have := hI d hd; omega
+    · rw [h0] at hd
+      simp only [Option.some.injEq] at hd
+      omega
   | retire t => simp [next, WState.init] at hd
   | background q t => exact hI d hd
 
@@ -428,22 +443,14 @@ theorem deadline_later {T idle : Int} : ∀ (l : List Step) (c : Cfg), wf T idle
       | event it =>
         have ht := okStep_event h.1
         simp only [next] at h1
-        unfold stepEvent feedback at h1
-        simp only at h1
-        cases hp : it.patched with
-        | some p =>
-          by_cases hT : T = 0
-          · simp only [hp, hT, ne_eq, not_true_eq_false, if_false] at h1
-            rcases arrive_cases c.s it.ver with ⟨h2, _, _⟩ | ⟨h2, _⟩
-            · rw [h2] at h1; cases h1
-            · rw [h2] at h1; exact Or.inl h1
-          · simp only [hp, ne_eq, hT, not_false_eq_true, if_true, Option.some.injEq] at h1
-            right; omega
-        | none =>
-          simp only [hp] at h1
+        rcases stepEvent_state_cases T c.s it with h0 | ⟨p, _, _, _, h0⟩
+        · rw [h0] at h1
           rcases arrive_cases c.s it.ver with ⟨h2, _, _⟩ | ⟨h2, _⟩
           · rw [h2] at h1; cases h1
           · rw [h2] at h1; exact Or.inl h1
+        · rw [h0] at h1
+          simp only [Option.some.injEq] at h1
+          right; omega
       | retire t => simp [next, WState.init] at h1
       | background q t => exact Or.inl h1
     · right; omega
